@@ -79,10 +79,29 @@ func (e *CEnv) quantBody(guard Tm, sides []Tm, body Tm, universal bool) Tm {
 // trigger registers a ground index term: quantified hypotheses are instantiated at it
 // (and its neighbours) through the pattern (Tr k).
 func (e *CEnv) trigger(t Tm) {
-	if e.sides != nil {
-		return // inside a quantifier: the term may mention bound variables
+	if e.sides != nil && e.mentionsBound(t) {
+		return // not a ground term
 	}
 	e.st.trigger(t)
+}
+
+// mentionsBound: does the term mention a variable bound by an enclosing quantifier?
+func (e *CEnv) mentionsBound(t Tm) bool {
+	for _, v := range e.bound {
+		for _, l := range v.flatten() {
+			if strings.Contains(l.S, "!") && strings.Contains(t.S, l.S) {
+				return true
+			}
+		}
+	}
+	return false
+}
+
+func (e *CEnv) triggerRef(t Tm) {
+	if e.sides != nil && e.mentionsBound(t) {
+		return
+	}
+	e.st.triggerRef(t)
 }
 
 // hyp / goal evaluate a clause in assumed / to-be-proved position.
@@ -160,11 +179,12 @@ func (e *CEnv) evalBool(c Clause) Tm {
 	return v.S
 }
 
-// mkForall builds (forall (binders) body), merging directly nested universal quantifiers
-// (one multi-variable quantifier gives the solvers a multi-pattern to work with).
-func mkForall(binders string, body Tm) Tm {
-	if strings.HasPrefix(body.S, "(forall (") {
-		// find end of inner binder list
+// mkForallP builds (forall (binders) (! body :pattern (pats))). A directly nested universal
+// quantifier built by this function is merged (its binders and patterns are appended), which
+// gives the solvers one multi-pattern over all variables.
+func mkForallP(binders string, pats []string, body Tm) Tm {
+	const pre = "(forall ("
+	if strings.HasPrefix(body.S, pre) && strings.HasSuffix(body.S, ")))") {
 		depth := 0
 		start := len("(forall ")
 		for i := start; i < len(body.S); i++ {
@@ -173,16 +193,33 @@ func mkForall(binders string, body Tm) Tm {
 				depth++
 			case ')':
 				depth--
-				if depth == 0 {
-					inner := body.S[start+1 : i]
-					rest := strings.TrimSpace(body.S[i+1 : len(body.S)-1])
+			}
+			if depth == 0 {
+				inner := body.S[start+1 : i]
+				rest := strings.TrimSpace(body.S[i+1 : len(body.S)-1])
+				// rest is "(! B :pattern (P...))" or a plain body
+				if strings.HasPrefix(rest, "(! ") {
+					if j := strings.LastIndex(rest, " :pattern ("); j > 0 {
+						ipats := strings.TrimSuffix(rest[j+len(" :pattern ("):], "))")
+						b := rest[3:j]
+						all := append(append([]string{}, pats...), ipats)
+						return tm(SBool, "(forall (%s %s) (! %s :pattern (%s)))", binders, inner, b, strings.Join(all, " "))
+					}
+				}
+				if len(pats) == 0 {
 					return tm(SBool, "(forall (%s %s) %s)", binders, inner, rest)
 				}
+				break
 			}
 		}
 	}
-	return tm(SBool, "(forall (%s) %s)", binders, body.S)
+	if len(pats) == 0 {
+		return tm(SBool, "(forall (%s) %s)", binders, body.S)
+	}
+	return tm(SBool, "(forall (%s) (! %s :pattern (%s)))", binders, body.S, strings.Join(pats, " "))
 }
+
+func mkForall(binders string, body Tm) Tm { return mkForallP(binders, nil, body) }
 
 func boolVal(t Tm) *Val { return &Val{T: types.Typ[types.Bool], K: KBool, S: t} }
 
@@ -873,7 +910,7 @@ func (e *CEnv) call(n *ast.CallExpr) *Val {
 		body := sub.eval(n.Args[3])
 		rng := and(m.le(lo, bv.S), m.lt(bv.S, hi))
 		if universal {
-			return boolVal(tm(SBool, "(forall ((%s %s)) (! %s :pattern ((%s %s))))", bn, m.idx(), e.quantBody(rng, sides, body.S, true).S, e.x.trUF(m.idx()), bn))
+			return boolVal(mkForallP(fmt.Sprintf("(%s %s)", bn, m.idx()), []string{fmt.Sprintf("(%s %s)", e.x.trUF(m.idx()), bn)}, e.quantBody(rng, sides, body.S, true)))
 		}
 		return boolVal(tm(SBool, "(exists ((%s %s)) %s)", bn, m.idx(), e.quantBody(rng, sides, body.S, false).S))
 	case "forallint":
@@ -894,7 +931,7 @@ func (e *CEnv) call(n *ast.CallExpr) *Val {
 		var sides []Tm
 		sub.sides = &sides
 		body := sub.eval(n.Args[1])
-		return boolVal(mkForall(fmt.Sprintf("(%s %s)", bn, m.idx()), e.quantBody(tTrue, sides, body.S, true)))
+		return boolVal(mkForallP(fmt.Sprintf("(%s %s)", bn, m.idx()), []string{fmt.Sprintf("(%s %s)", e.x.trUF(m.idx()), bn)}, e.quantBody(tTrue, sides, body.S, true)))
 	case "forallv":
 		// forallv(x, T, P): for all values x of Go type T
 		if len(n.Args) != 3 {
@@ -902,20 +939,33 @@ func (e *CEnv) call(n *ast.CallExpr) *Val {
 		}
 		id := n.Args[0].(*ast.Ident)
 		t := e.resolveT(n.Args[1])
-		sub := e.sub()
 		ls := m.leaves(t)
+		if e.sides == nil && e.pol < 0 {
+			sv := st.freshVal("sk."+id.Name, t)
+			sub := e.sub()
+			sub.bound[id.Name] = sv
+			if sv.K == KPtr {
+				e.triggerRef(sv.S)
+			}
+			return boolVal(sub.eval(n.Args[2]).S)
+		}
+		sub := e.sub()
 		ts := make([]Tm, len(ls))
 		var bvs []string
+		var pats []string
 		for i, l := range ls {
 			bn := freshName(id.Name)
 			ts[i] = Tm{bn, l.sort}
 			bvs = append(bvs, fmt.Sprintf("(%s %s)", bn, l.sort))
+			if len(ls) == 1 && l.sort == SInt && kindOf(t) == KPtr {
+				pats = append(pats, fmt.Sprintf("(%s %s)", e.x.trRefUF(), bn))
+			}
 		}
 		sub.bound[id.Name] = m.build(t, ts)
 		var sides []Tm
 		sub.sides = &sides
 		body := sub.eval(n.Args[2])
-		return boolVal(mkForall(strings.Join(bvs, " "), e.quantBody(tTrue, sides, body.S, true)))
+		return boolVal(mkForallP(strings.Join(bvs, " "), pats, e.quantBody(tTrue, sides, body.S, true)))
 	case "bytype":
 		// bytype(x, "T1", e1, "T2", e2, ...): static dispatch on the Go type of x
 		if len(n.Args) < 3 || len(n.Args)%2 != 1 {
@@ -957,6 +1007,7 @@ func (e *CEnv) call(n *ast.CallExpr) *Val {
 			sk := st.declare("sk."+id.Name, SInt)
 			sub := e.sub()
 			sub.bound[id.Name] = &Val{T: types.Typ[types.UnsafePointer], K: KPtr, S: sk}
+			e.triggerRef(sk)
 			return boolVal(sub.eval(n.Args[1]).S)
 		}
 		sub := e.sub()
@@ -965,7 +1016,7 @@ func (e *CEnv) call(n *ast.CallExpr) *Val {
 		var sides []Tm
 		sub.sides = &sides
 		body := sub.eval(n.Args[1])
-		return boolVal(mkForall(fmt.Sprintf("(%s Int)", bn), e.quantBody(tTrue, sides, body.S, true)))
+		return boolVal(mkForallP(fmt.Sprintf("(%s Int)", bn), []string{fmt.Sprintf("(%s %s)", e.x.trRefUF(), bn)}, e.quantBody(tTrue, sides, body.S, true)))
 	case "panicked":
 		return boolVal(boolTm(e.panicked))
 	case "panicval":
@@ -1306,15 +1357,20 @@ func (e *CEnv) ghostKeyTerm(gd *GhostDecl, i int, v *Val) Tm {
 	}
 	switch kk {
 	case "ref", "addr":
+		var t Tm
 		switch v.K {
 		case KPtr, KChan, KMap:
-			return e.ptrTerm(v)
+			t = e.ptrTerm(v)
 		case KIface:
-			return v.ival()
+			t = v.ival()
 		case KSlice, KString:
-			return v.arr()
+			t = v.arr()
 		case KInt:
-			return v.S
+			t = v.S
+		}
+		if t.S != "" {
+			e.triggerRef(t)
+			return t
 		}
 		e.errf("ghost %s: key %d of kind %v is not a reference", gd.Name, i, v.K)
 	case "int":
@@ -1362,6 +1418,9 @@ func (e *CEnv) ghostApp(gd *GhostDecl, n *ast.CallExpr) *Val {
 	for i, a := range n.Args {
 		k := e.ghostKeyTerm(gd, i, e.eval(a))
 		t = sel(t, k, arrayElemSort(t.Sort))
+	}
+	if t.Sort == e.st.m.idx() {
+		e.trigger(t) // int-valued ghosts (positions) are index terms
 	}
 	return e.ghostResult(gd, t)
 }
